@@ -316,6 +316,7 @@ func outLast() any                               { return nil }
 
 //@ func (*Executor).execArrayIndex
 //@ props C07 C14
+//@ alsoprops verbose-class C11
 //@ assumes result-list-is-not-the-document: found != nil && is[[]any](value) ==> !sameBase(found.list, as[[]any](value))
 //@ loop 1 invariant [C08 C14] list-apart: found != nil && is[[]any](value) ==> !sameBase(found.list, as[[]any](value))
 //@ loop 2 invariant [C08 C14] list-apart: found != nil && is[[]any](value) ==> !sameBase(found.list, as[[]any](value))
@@ -338,7 +339,7 @@ func outLast() any                               { return nil }
 //@ atcall execSubscript assert [C08 C14] items-before-next-subscript: is[[]any](value) && ncalls(exec.execSubscript) >= 1 && callret[int](exec.execSubscript, 0) <= callret[int](exec.execSubscript, 1) && array[callret[int](exec.execSubscript, 1)] != nil ==> ncalls(exec.executeNextItem) >= 1 && callarg[any](exec.executeNextItem, "value") == array[callret[int](exec.execSubscript, 1)]
 //@ atcall executeNextItem assert [C14] element: arg_value == array[index] && arg_found == found
 //@ ensures [C06] exists-mode-result: found == nil ==> r0 == statusFailed || r0 == statusNotFound || (r0 == statusOK && r1 == nil)
-//@ ensures [C07] strict-nonarray: !is[[]any](value) && !exec.path.IsLax() ==> r0 == statusFailed && (r1 == nil || errIs(r1, ErrVerbose)) && ncalls(exec.executeNextItem) == 0
+//@ ensures [C07 C14] strict-nonarray: !is[[]any](value) && !exec.path.IsLax() ==> r0 == statusFailed && (r1 == nil || errIs(r1, ErrVerbose)) && ncalls(exec.executeNextItem) == 0
 
 // ---------------------------------------------------------------------------
 // execution.go (continued): dispatch, cancellation poll, lax result unwrapping
@@ -765,6 +766,8 @@ func isUnknownSpec(a predOutcome) predOutcome {
 
 //@ func (*Executor).execBinaryMathExpr
 //@ props C13
+//@ alsoprops E6-failure-propagated C13
+//@ alsoprops E6-error-propagated C13
 //@ requires node.Operator() >= ast.BinaryAdd && node.Operator() <= ast.BinaryMod
 //@ atcall executeItemOptUnwrapResult assert [C13 C09] operands: arg_value == value && arg_unwrap && (arg_node == node.Left() || arg_node == node.Right()) && fresh(arg_found)
 //@ ensures [C13] left-singleton: ncalls(exec.executeItemOptUnwrapResult) >= 1 && pendingErr() == nil && !pendingFailed() && ncalls(execMathOp) == 0 && ncalls(exec.executeItemOptUnwrapResult) == 1 ==> r0 == statusFailed && (r1 == nil || errIs(r1, ErrVerbose))
